@@ -84,15 +84,16 @@ def run_history(hist, batch):
             if closed:
                 break
             total_before = len(written)
-            if ev == "bad":
-                r = recs.build_record(BAD(step))
+            if ev in ("bad", "badtable"):
+                # "bad": an integer SQLite cannot store; "badtable": a type whose table SQLite refuses to create (reserved sqlite_ prefix)
+                r = recs.build_record(BAD(step) if ev == "bad" else rs("sqlite_reserved", [["string", "s"]], ["'t%d'" % step]))
                 key = (r._desc.name, tuple(r._desc.get_field_tuples()))
                 if key not in seen_desc:
                     seen_desc.add(key)
                     commit_points.add(total_before)
                 try:
                     w.write(r)
-                    viol.append(("C18:out-of-range-integer-accepted", {"step": step, "batch": batch}))
+                    viol.append(("C18:%s-accepted" % ("out-of-range-integer" if ev == "bad" else "reserved-table-name"), {"step": step, "batch": batch}))
                 except Exception:  # noqa: BLE001  refused: nothing of it may be stored, nothing accepted before may be lost
                     pass
             elif ev in KIND:
@@ -413,8 +414,8 @@ def cases(tier, seed):
             yield {"kind": "hist", "hist": list(hist)}
     # longer single-type histories around the batch boundaries
     for k in range(1, 5):
-        for hist in itertools.product(["A", "B", "bad", "flush"], repeat=k):
-            if "bad" in hist:
+        for hist in itertools.product(["A", "B", "bad", "badtable", "flush"], repeat=k):
+            if "bad" in hist or "badtable" in hist:
                 yield {"kind": "hist", "hist": list(hist) + ["close"]}
                 yield {"kind": "hist", "hist": list(hist)}
     for k in range(1, 5):
